@@ -2,6 +2,7 @@
 failure.  Decided: definite internal failures and definite silent
 acceptances visible in the source."""
 import ast
+import os
 import re
 try:
     import re._parser as sre_parse     # Python >= 3.11
@@ -737,6 +738,18 @@ def rule_r7(repo, run):
                     for t, pol in pyflow.dominating_tests(node, stop=f):
                         if _member_test(t, key, dd) is not None and _member_test(t, key, dd) == pol:
                             ok = True
+                    # `key in d and d[key] ...`: the right operand is evaluated only when the left one held
+                    child = node
+                    for p in parent_chain(node):
+                        if isinstance(p, ast.stmt):
+                            break
+                        if isinstance(p, ast.BoolOp):
+                            for v in p.values:
+                                if v is child:
+                                    break
+                                if not isinstance(v, ast.BoolOp) and _member_test(v, key, dd) is isinstance(p.op, ast.And):
+                                    ok = True
+                        child = p
                     for t, pol in pyflow.early_exit_guards(f, node):
                         # the exit must be taken whenever the key is missing: the test is `key not in d`
                         # itself or a disjunction containing it (a conjunction only exits when *all* are missing)
@@ -775,6 +788,13 @@ def _member_test(t, key, d):
                 return True
             if isinstance(n.ops[0], ast.NotIn):
                 return False
+    # `d.get(key)` used as a truth value: true only when the key is present
+    if isinstance(t, ast.Call) and isinstance(t.func, ast.Attribute) and t.func.attr == "get" and t.args and \
+            pyflow.const_str(t.args[0]) == key and (pyflow.dotted(t.func.value) or "") == d:
+        dflt = t.args[1] if len(t.args) > 1 else None
+        if dflt is None or (isinstance(dflt, ast.Constant) and not dflt.value) or \
+                (isinstance(dflt, (ast.Dict, ast.List, ast.Tuple)) and not (getattr(dflt, "keys", None) or getattr(dflt, "elts", None))):
+            return True
     return None
 
 
@@ -1134,6 +1154,27 @@ def rule_r12(repo, run):
          "parent", None, "`declarations:` below a node that cannot contain declarations (a function) calls add_declaration on it")
     need(gm, "VerifyAttrs.parse_attrs", lambda x: isinstance(x, ast.Call) and (pyflow.call_name(x) or "").endswith("check_dimension"),
          "dim", "str", "`attrs: {v: {dimension: 3}}` gives the tokenizer an int (inline +dimension(3) is text)")
+    need(gm, "check_implied_attrs", lambda x: isinstance(x, ast.Call) and pyflow.is_name(x.func, "check_implied"), "expr", "str",
+         "`attrs: {n: {implied: 3}}` gives the expression parser an int (inline +implied(3) is text)")
+    # a text value of the YAML file can be empty (`call: ""`): a fixed position in it is read only after it was seen to
+    # be non-empty
+    from sa import yamlflow as yf
+    lf = am.func("listify")
+    ne = 0
+    for x in ast.walk(lf):
+        if isinstance(x, ast.Subscript) and isinstance(x.ctx, ast.Load) and isinstance(x.value, ast.Name) and \
+                isinstance(x.slice, (ast.Constant, ast.UnaryOp)):
+            facts = yf.facts_at(lf, x)
+            is_text = any(k == "isinstance" and pol and pyflow.is_name(e, x.value.id) and t == "str" for k, e, t, pol in facts)
+            if not is_text:
+                continue
+            ne += 1
+            nonempty = any(k == "truth" and pol and any(pyflow.is_name(y, x.value.id) for y in ast.walk(e)) for k, e, t, pol in facts)
+            run.check(R, "ast.listify:%s:non-empty" % am.seg(x), nonempty,
+                      "`%s` reads a fixed position of a text value of the YAML file that can be empty (`call: \"\"` in "
+                      "fstatements, `c: \"\"` in splicer): IndexError inside the generator" % am.seg(x), am.loc(x))
+    arms = [i for i in ast.walk(lf) if isinstance(i, ast.If) and "isinstance(value, str)" in str(am.seg(i.test))]
+    run.floor(R, "text arm of listify", len(arms), 1)
     # closed-set option
     ci = am.func("ClassNode.__init__")
     sets = [a for a in ast.walk(ci) if isinstance(a, ast.Assign) and str(am.seg(a.targets[0])) == "self.wrap_as"]
@@ -1168,6 +1209,22 @@ def rule_r12(repo, run):
                         aliases.add(a.targets[0].id)
                 guards = [t for t, pol in pyflow.early_exit_guards(fn, c)] + [t for t, pol in pyflow.dominating_tests(c, stop=fn) if not pol]
                 ok = any(any(str(gm.seg(t)) == "%s is True" % al for al in aliases) for t in guards)
+                # a value written in the YAML attrs group can be a list or a mapping: int() raises TypeError for those,
+                # ValueError only for text
+                tries = [p_ for p_ in parent_chain(c) if isinstance(p_, ast.Try) and any(c is x for st in p_.body for x in ast.walk(st))]
+                caught = set()
+                for h in (tries[0].handlers if tries else []):
+                    if h.type is None:
+                        caught |= {"TypeError", "ValueError"}
+                    for x in ast.walk(h.type) if h.type is not None else []:
+                        if isinstance(x, ast.Name):
+                            caught.add(x.id)
+                if "Exception" in caught:
+                    caught |= {"TypeError", "ValueError"}
+                run.check(R, "generate.%s:int(attrs[%s]):conversion-errors" % (q, attr), {"TypeError", "ValueError"} <= caught,
+                          "int(attrs[%r]) is converted under `except %s`: `attrs: {a: {%s: [2]}}` in the YAML file is a list, "
+                          "int() raises TypeError for it and the traceback leaves the generator"
+                          % (attr, "/".join(sorted(caught)) or "nothing", attr), gm.loc(c))
                 run.check(R, "generate.%s:int(attrs[%s]):valueless" % (q, attr), ok,
                           "`+%s` without a value is stored as True and int(True) == 1: the attribute is silently taken as %s=1 "
                           "unless `is True` is rejected before the conversion" % (attr, attr), gm.loc(c))
@@ -1196,6 +1253,227 @@ def rule_r12(repo, run):
     run.floor(R, "typed uses of raw YAML values", n, 9)
 
 
+# functions of ast.py that check the shape of the input before the node constructors read it
+YAML_VALIDATORS = ("clean_dictionary", "create_library_from_dictionary", "add_declarations")
+
+
+def yaml_keys(repo):
+    """keys that appear in a YAML context (`key:` at the start of a line) in the documentation and the example inputs"""
+    keys = set()
+    n = 0
+    for sub, ext in (("docs", ".rst"), ("regression/input", ".yaml")):
+        d = os.path.join(repo.root, sub)
+        if not os.path.isdir(d):
+            continue
+        for f in sorted(os.listdir(d)):
+            if f.endswith(ext):
+                n += 1
+                for line in repo.read("%s/%s" % (sub, f)).split("\n"):
+                    m_ = re.match(r"\s*(?:- )?(\w+):(\s|$)", line)
+                    if m_:
+                        keys.add(m_.group(1))
+    if n < 20 or "cxx_header" not in keys or "fstatements" not in keys:
+        raise AnalysisError("C17.R13: documentation / example inputs not found (%d files)" % n)
+    return keys
+
+
+def rule_r13(repo, run):
+    R = run.rule("C17.R13", "a value of the input file that is used as a string / list / mapping (a method only that type has, "
+                            "iteration, `in`, indexing, `**`, concatenation with text) was tested with isinstance of that type "
+                            "- at the use, or by the functions that check the input before the node constructors run - and a "
+                            "check that lets a blank value (None) pass removes or replaces it")
+    from sa import yamlflow as yf
+    am, mm = repo.module("ast"), repo.module("main")
+    documented = yaml_keys(repo)
+    typed, blank = yf.validators_in(am, YAML_VALIDATORS)
+    if len(set(p for p, t, e, r, q in typed)) < 12:
+        raise AnalysisError("C17.R13: type checks of the input file not recognised (%d keys)" % len(set(p for p, t, e, r, q in typed)))
+    # the driver reads the file, then calls create_library_from_dictionary (which validates), then goes on reading
+    mw = mm.func("main_with_args")
+    create = [c for c in ast.walk(mw) if isinstance(c, ast.Call) and (pyflow.call_name(c) or "").endswith("create_library_from_dictionary")]
+    if not create:
+        raise AnalysisError("C17.R13: main_with_args no longer calls create_library_from_dictionary")
+    n = 0
+    seen = {}
+    for mod in (am, mm):
+        for u in yf.uses_in(mod, documented):
+            if u.path.startswith("__") or ".__" in u.path:
+                continue
+            n += 1
+            key = "%s.%s:%s:%s:%s" % (mod.name, u.q, u.path, u.want, u.how)
+            seen[key] = seen.get(key, 0) + 1
+            if seen[key] > 1:
+                key += "#%d" % seen[key]
+            if u.guarded():
+                run.ok(R, key)
+                continue
+            why = "no isinstance(..., %s) test of `%s:` precedes it" % ("/".join(yf.TYPE_OK[u.want][:3]), u.path)
+            ok = False
+            for path, t, exempt, r, q in typed:
+                if path != u.path or not yf.satisfies(t, u.want):
+                    continue
+                if mod is am and q == u.q and r.lineno > u.node.lineno:
+                    why = "the isinstance test of `%s:` comes after this use" % u.path
+                    continue
+                if mod is mm and u.node.lineno < create[0].lineno:
+                    why = "the input is checked by create_library_from_dictionary, which is called after this use"
+                    continue
+                if exempt and path not in blank and not u.not_none():
+                    why = "the check of `%s:` lets a blank value (None) pass and nothing removes or replaces it" % u.path
+                    continue
+                ok = True
+                break
+            run.check(R, key, ok,
+                      "`%s` is used as a %s (%s) but %s: a value of another type in the input file ends in "
+                      "AttributeError / TypeError inside the generator instead of a diagnostic"
+                      % (re.sub(r"\s+", " ", ast.unparse(u.node))[:50], u.want, u.how, why), mod.loc(u.node))
+    run.floor(R, "typed uses of values of the input file", n, 40)
+    # values kept on the node (self.A = kwargs.get("K")) and used by the wrappers
+    stored = yf.stored_attributes(am)
+    elsewhere = set()
+    for mn in loader_modules():
+        if mn == "ast":
+            continue
+        for a in ast.walk(repo.module(mn).tree):
+            if isinstance(a, ast.Assign):
+                for t in a.targets:
+                    if isinstance(t, ast.Attribute):
+                        elsewhere.add(t.attr)
+    na = 0
+    for attr, paths in sorted(stored.items()):
+        if len(paths) != 1 or attr in elsewhere:
+            continue
+        path = list(paths)[0]
+        if path not in documented:
+            continue
+        demands = {}
+        elems = {}
+        for mn in loader_modules():
+            mod = repo.module(mn)
+            for x in ast.walk(mod.tree):
+                if isinstance(x, ast.Attribute) and x.attr == attr and yf._is_load(x):
+                    tu = yf.typed_use(x)
+                    if tu:
+                        demands.setdefault(tu[0], []).append((mod, x, tu[1]))
+                    lp = getattr(x, "_parent", None)
+                    if isinstance(lp, ast.For) and lp.iter is x and isinstance(lp.target, ast.Name):
+                        for y in ast.walk(lp):
+                            if isinstance(y, ast.Name) and y.id == lp.target.id and yf._is_load(y):
+                                tu = yf.typed_use(y)
+                                if tu:
+                                    elems.setdefault(tu[0], []).append((mod, y, tu[1]))
+        for want, sites in sorted(elems.items()):
+            if want == "container":
+                continue
+            na += 1
+            ok = any(p_ == path + "[]" and yf.satisfies(t, want) for p_, t, e, r, q in typed)
+            mod, x, how = sites[0]
+            run.check(R, "attribute:%s:%s[]:%s" % (attr, path, want), ok,
+                      "the items of `%s:` are stored as .%s and used as a %s (`%s` %s) but their type is never tested or "
+                      "converted: `%s: [3]` in the input file ends in TypeError inside the generator"
+                      % (path, attr, want, re.sub(r"\s+", " ", ast.unparse(x._parent))[:50], how, path), mod.loc(x))
+        strict = [w for w in demands if w != "container"]
+        if len(strict) > 1:
+            continue   # used both ways: the attribute name is shared by unrelated objects
+        for want, sites in sorted(demands.items()):
+            if strict and want == "container":
+                continue
+            na += 1
+            ok = any(p_ == path and yf.satisfies(t, want) for p_, t, e, r, q in typed)
+            mod, x, how = sites[0]
+            run.check(R, "attribute:%s:%s:%s" % (attr, path, want), ok,
+                      "`%s:` is stored as .%s and used as a %s at %d site(s) (first: `%s` %s) but its type is never tested: a "
+                      "value of another type in the input file ends in AttributeError / TypeError inside the generator"
+                      % (path, attr, want, len(sites), re.sub(r"\s+", " ", ast.unparse(x._parent))[:50], how), mod.loc(x))
+    run.floor(R, "stored values of the input file with a typed use", na, 4)
+
+
+def rule_r14(repo, run):
+    R = run.rule("C17.R14", "text of the declaration is converted with int(text, base) only when a ValueError is caught, or "
+                            "after the parser has refused digits the base does not have - at every place where the text of an "
+                            "INTEGER token leaves the tokenizer")
+    dm = repo.module("declast")
+    # validators: parser methods that look at the current token's text and stop with error_msg / raise under a test
+    # about its digits (a digit set, a character class, or a trial conversion under try/except ValueError)
+    validators = {}
+    for q, fn in sorted(dm.functions().items()):
+        if not any(str(dm.seg(x)) == "self.token.value" for x in ast.walk(fn)):
+            continue
+        for c in ast.walk(fn):
+            stops = (isinstance(c, ast.Call) and (pyflow.call_name(c) or "") == "self.error_msg") or isinstance(c, ast.Raise)
+            if not stops:
+                continue
+            tests = [t for t, pol in pyflow.dominating_tests(c, stop=fn)]
+            txt = " ".join(str(dm.seg(t)) for t in tests)
+            digits = re.search(r"0-7|01234567|'[89]'|\"[89]\"", txt) is not None
+            in_handler = any(isinstance(p_, ast.ExceptHandler) and "ValueError" in str(dm.seg(p_.type) if p_.type is not None else "")
+                             for p_ in parent_chain(c))
+            if digits or in_handler:
+                validators[q.split(".")[-1]] = q
+    # places where the text of an INTEGER token is taken
+    sites = []
+    for q, fn in sorted(dm.functions().items()):
+        reads = [x for x in ast.walk(fn) if isinstance(x, ast.Attribute) and str(dm.seg(x)) == "self.token.value"
+                 and isinstance(x.ctx, ast.Load)]
+        mentions = [x for x in ast.walk(fn) if isinstance(x, ast.Constant) and x.value == "INTEGER"]
+        takes = any(isinstance(c, ast.Call) and (pyflow.call_name(c) or "") in ("self.have", "self.next", "self.mustbe") for c in ast.walk(fn))
+        if not reads or not mentions or not takes:
+            continue
+        sites.append((q, fn, reads, mentions))
+    if len(sites) < 2:
+        raise AnalysisError("C17.R14: the places where INTEGER tokens are read were not found (%d)" % len(sites))
+    all_ok = True
+    for q, fn, reads, mentions in sites:
+        calls = [c for c in ast.walk(fn) if isinstance(c, ast.Call) and isinstance(c.func, ast.Attribute)
+                 and c.func.attr in validators and pyflow.is_name(c.func.value, "self")]
+        # the check looks at the current token: it must come before the token is passed (have("INTEGER") / next())
+        passed = [c for c in ast.walk(fn) if isinstance(c, ast.Call) and (
+            ((pyflow.call_name(c) or "") == "self.have" and c.args and pyflow.const_str(c.args[0]) == "INTEGER") or
+            ((pyflow.call_name(c) or "") == "self.next" and any(m_.lineno <= c.lineno for m_ in mentions)))]
+        first_pass = min([c.lineno for c in passed] or [10 ** 9])
+        inline = False
+        for t_ in ast.walk(fn):
+            if isinstance(t_, ast.Try) and any("ValueError" in str(dm.seg(h.type) if h.type is not None else "ValueError")
+                                               for h in t_.handlers):
+                if any(isinstance(c, ast.Call) and pyflow.is_name(c.func, "int") and len(c.args) == 2 for st in t_.body for c in ast.walk(st)):
+                    inline = True
+        ok = inline or any(c.lineno <= first_pass for c in calls)
+        all_ok = all_ok and ok
+        run.check(R, "declast.%s:INTEGER-text" % q, ok,
+                  "%s takes the text of an INTEGER token (`\\d+`) without the digit check (%s): `08` reaches int(text, 8) - in "
+                  "the initializer, the enum evaluation or the Fortran rendering of constants - and ends in ValueError"
+                  % (q, ", ".join(sorted(validators)) or "no parser method refuses digits by base"), dm.loc(fn))
+    # the conversions
+    nconv = 0
+    for mn in loader_modules():
+        m = repo.module(mn)
+        for q, fn in sorted(m.functions().items()):
+            for c in ast.walk(fn):
+                if not (isinstance(c, ast.Call) and pyflow.is_name(c.func, "int") and len(c.args) == 2
+                        and isinstance(c.args[1], ast.Constant) and c.args[1].value in (2, 8, 16)):
+                    continue
+                if enclosing_function(c) is not fn:
+                    continue
+                nconv += 1
+                caught = False
+                for p_ in parent_chain(c):
+                    if isinstance(p_, ast.Try) and any(c is x for st in p_.body for x in ast.walk(st)):
+                        if any(h.type is None or "ValueError" in str(m.seg(h.type)) or "Exception" in str(m.seg(h.type)) for h in p_.handlers):
+                            caught = True
+                    if p_ is fn:
+                        break
+                run.check(R, "%s.%s:int(..., %d)" % (mn, q, c.args[1].value), caught or all_ok,
+                          "`%s` converts text of the declaration; no ValueError handler encloses it and the parser does not refuse "
+                          "the digits base %d lacks at every place where an INTEGER token is read"
+                          % (re.sub(r"\s+", " ", str(m.seg(c))), c.args[1].value), m.loc(c))
+    run.floor(R, "radix conversions", nconv, 3)
+
+
+def loader_modules():
+    from sa.loader import PY_MODULES
+    return PY_MODULES
+
+
 def run(repo, run, tier):
     P = Program(repo)
     rule_r1(repo, run, P)
@@ -1209,4 +1487,6 @@ def run(repo, run, tier):
     rule_r9(repo, run)
     rule_r10(repo, run)
     rule_r11(repo, run)
+    rule_r13(repo, run)
+    rule_r14(repo, run)
     rule_r12(repo, run)
